@@ -66,7 +66,7 @@ func TestRecoveryTerminatesIff(t *testing.T) {
 	hx.Rule("recovery_terminates_iff", "arbitrary token soup (G-LEX sequences, corrupted G-SQL statements, statement-keyword soup) with at least one non-semicolon token; ParseWithRecovery must return (30 s budget for inputs that take microseconds) and report >= 1 error exactly when gosqlx.Parse fails; non-trivial = input is rejected; distinct = token kinds")
 	f := lexgen.Features{StringStartsWithDoubledQuote: false, TrailingComment: true, Comments: true}
 	kwSoup := []string{"SELECT", "FROM", "WHERE", ";", "(", ")", "INSERT", "INTO", "VALUES", "UPDATE", "SET", "DELETE", "WITH", "AS", "a", "t1", "1", ",", "=", "JOIN", "ON", "CREATE", "TABLE", "DROP", "UNION", "CASE", "WHEN", "END", "*", "MERGE", "USING", "MATCH", "AGAINST", "INTERVAL"}
-	soupCheck.Rapid(t, hx.N(6000, 300000), func(rt *rapid.T) SoupCase {
+	soupCheck.Rapid(t, hx.N(120000, 1200000), func(rt *rapid.T) SoupCase {
 		var s string
 		switch rapid.IntRange(0, 3).Draw(rt, "soupkind") {
 		case 0:
@@ -201,7 +201,7 @@ func prefixComplete(toks []sqlgen.Tok) bool {
 
 func TestRecoveryScript(t *testing.T) {
 	hx.Rule("recovery_script", "scripts S1;...;Sn (n<=6) of flat G-SQL statements (no statement-starting keyword after the first token), each kept or corrupted (delete/duplicate/swap/replace/insert/truncate); each Si is classified by gosqlx.Parse alone; recovery parsing must return exactly the trees of the well-formed ones in order, one error per malformed one, each naming a token of its own segment; non-trivial = a malformed segment that is neither first nor last, or two adjacent malformed segments; distinct = verdict vector + corruption kinds + sizes")
-	scriptCheck.Rapid(t, hx.N(5000, 300000), func(rt *rapid.T) ScriptCase {
+	scriptCheck.Rapid(t, hx.N(100000, 1000000), func(rt *rapid.T) ScriptCase {
 		n := rapid.IntRange(1, 6).Draw(rt, "nseg")
 		var c ScriptCase
 		var vec []string
